@@ -135,3 +135,8 @@ def check(prog: Program, rep):
         rep.violation("C08.R8", key, "the length-to-factor selection is stated for every layer of the given-weights model, also for the unused weights whose paths are empty (length 0): "
                       "if no range contains 0 every given weight is forced onto a real path (ranges [[1, 100]], factor 1, superset [5, 3] on s->a->t with flow 5: infeasible for "
                       "k=1, slack 3 for k=2, optimum 0)", init.loc())
+    from rules.values import python_arithmetic as _pa
+    from sa.pm import AnalysisError as _AE
+    if _pa(prog, rep, "C08.R8", [prog.own_method(c, "is_valid_solution") for c in ['kMinPathError', 'kMinPathErrorCycles']],
+           "is_valid_solution() reports the model's own optimal solution invalid (5 - 7 = 254 for np.uint8)") < 2:
+        raise _AE("is_valid_solution: the comparison of the flow values with the load of the routes was not found")
